@@ -2,17 +2,49 @@ E1X = ["common", "e1_engine.go=lnwallet/e1_engine_test.go", "e1_oracles.go=lnwal
        "e1_fork.go=lnwallet/e1_fork_test.go", "e1_debug.go=lnwallet/e1_debug_test.go", "lnwallet/e1_export.go"]
 PROP = {
     "level": "exploration",
-    "technique": "runtime monitor: script-interpreter oracle on every input of every justice transaction the real breach code builds, for every revoked height of PRNG two-party channel histories, from a reloaded copy of the victim's database only",
-    "level_text": "placeholder",
-    "level_note": "placeholder",
+    "technique": ("runtime monitor: btcd script interpreter on every input of every justice transaction the real breach code "
+                  "(NewBreachRetribution -> newRetributionInfo -> RetributionStore -> createJusticeTx / updateBreachInfo) builds "
+                  "for every revoked height of PRNG two-party channel histories, from a reloaded copy of the victim's database only"),
+    "level_text": ("Two real LightningChannel machines on real bbolt channeldbs run PRNG asynchronous histories (30-60 actions + "
+                   "drain + tail traffic; HTLCs both directions incl. dust boundary/duplicates, settles, fails, fee updates, "
+                   "reconnects with reload of both sides; 7 channel types x either opener; 1/3 of the cases with the revocation log "
+                   "stored WITHOUT amount data). The engine records the fully signed commitment each party held at every height. "
+                   "Then each party is the victim once: its database is copied and reloaded, and for EVERY height of the peer it "
+                   "holds a revocation for: (1) the state hint decoded from the real revoked tx (obfuscator derived as "
+                   "newChainWatcher does) equals the height and the retribution names that txid; (2) NewBreachRetribution succeeds "
+                   "with the breach tx and with nil (ErrRevLogDataMissing accepted only for nil + no amount data); (3) every recorded "
+                   "outpoint/pkScript/amount equals the real output of the revoked tx, no output is recorded twice and every output "
+                   "except the <=2 anchors (scripts re-derived in the harness for non-taproot) is recorded; (4) the real "
+                   "newRetributionInfo (1/3 through a real RetributionStore Add/ForAll round trip incl. the taproot briefcase) and "
+                   "BreachArbitrator.createJusticeTx with the victim's signer build spendAll/spendCommitOuts/spendHTLCs and btcd's "
+                   "interpreter (StandardVerifyFlags, MultiPrevOutFetcher over the REAL prevouts) accepts every input of every "
+                   "variant; (5) for states of which a fork of the cheater produced its own signed HTLC-timeout/success txs "
+                   "(ForceClose while the state was current, preimage inserted as the contest resolver does, each validated by the "
+                   "interpreter against the revoked tx) a PRNG subset is 'confirmed', the real updateBreachInfo/"
+                   "convertToSecondLevelRevoke runs, every advanced HTLC must then be pursued on the second-level output and not on "
+                   "the spent one, and every input of all rebuilt variants incl. the per-HTLC second-level sweeps passes the "
+                   "interpreter against the real second-level outputs. Negative control: the same pipeline with the revocation "
+                   "secret of another height must be rejected by the interpreter (else t.Fatalf => inconclusive)."),
+    "level_note": ("Held on the histories executed (counts in evidence). Second-level clause only for states snapshotted while "
+                   "current (PRNG 1/6 per action + the quiescent state), not for every revoked height; legacy (pre-TLV) "
+                   "revocation-log format, aux/custom-channel leaves and resolution blobs, the chain watcher's own spend "
+                   "dispatch and exactRetribution's publish/retry loop are not exercised; justice fee rate fixed at the floor; "
+                   "<= ~15 HTLC outputs per state; height-0 (fixture-signed) commitments skipped. KNOWN FINDING KF-C04-1 (lease "
+                   "channel, victim is initiator: justice nLockTime 0 vs CLTV(lease expiry) on the own to_remote output) fires "
+                   "on the pinned tree under key CommitmentToRemoteConfirmed/lease."),
     "design_ref": "DESIGN.md §2 E1/E3, §3 C04",
-    "rule": "placeholder",
-    "assumptions": [],
+    "rule": ("case = (channel params, 30-60 PRNG actions, reconnects 1/25, cheater snapshots 1/6, noAmtData 1/3) from (seed, index); "
+             "non-trivial = case with >=1 revoked state carrying >=1 non-dust HTLC output; distinct = distinct (channel type, "
+             "cheater is opener, #HTLC-outputs bucket, incoming+outgoing present, with/without spendTx, with/without amount "
+             "data) plus (type, opener, bucket, second-level, via-store) signatures over the judged revoked states"),
+    "assumptions": ["the revoked transaction is the fully signed commitment the engine recorded from the cheater before it revoked it (heights >= 1)",
+                    "victim signs with the fixture MockSigner holding its channel base keys; sweep script and fee estimator are fixtures",
+                    "the cheater's second-level transactions are published unmodified (1-in-1-out), as convertToSecondLevelRevoke assumes (output index == input index)"],
     "units": [{
         "name": "breach", "pkg": "contractcourt", "test": "TestVerifC04",
         "files": ["contractcourt/c04_test.go"], "exports": {"lnwallet": E1X},
         "shards": {"quick": 8, "thorough": 16},
-        "watchdog": {"quick": 900, "thorough": 5400},
+        "watchdog": {"quick": 1200, "thorough": 7200},
         "floors": {},
     }],
 }
